@@ -15,6 +15,8 @@ pub struct Gen<'a> {
     buf: usize,
     /// reduced streams (the debug-profile run: `--profile debug`)
     lite: bool,
+    /// the next emitted line gets the header flag `ss` (run in a child process on a small stack; wave 4)
+    ss_next: bool,
 }
 
 /// one (input, script) pair, prepared once and emitted under several schedules
@@ -93,6 +95,11 @@ impl<'a> Gen<'a> {
         line.push_str(&p.hex);
         line.push(' ');
         line.push_str(&ss);
+        if self.ss_next {
+            line.push_str(" ss");
+            self.ss_next = false;
+            self.bump("cases_run_on_small_stack_child");
+        }
         if !p.script.is_empty() {
             line.push_str(" ; ");
             line.push_str(&p.script);
@@ -929,7 +936,7 @@ pub fn gen(args: &Args, emit: &mut dyn FnMut(String), st: &mut Stats) {
     if lite {
         st.add("reduced_streams_for_debug_profile", 1);
     }
-    let mut g = Gen { emit, cnt: BTreeMap::new(), atom_cnt: [0; 14], buf, lite };
+    let mut g = Gen { emit, cnt: BTreeMap::new(), atom_cnt: [0; 14], buf, lite, ss_next: false };
     crate::streams::stream_small(&mut g, &mut rng, thorough);
     crate::streams::stream_grammar(&mut g, &mut rng, thorough);
     crate::streams::stream_lines(&mut g, &mut rng, thorough);
@@ -938,6 +945,10 @@ pub fn gen(args: &Args, emit: &mut dyn FnMut(String), st: &mut Stats) {
     crate::streams::stream_ood(&mut g, &mut rng, thorough);
     crate::streams::stream_non_ascii(&mut g, &mut rng, thorough);
     crate::mgen::stream_multi(&mut g, &mut rng, thorough);
+    // wave 4: own generator state, so that the streams above stay exactly what they were
+    let mut rng4 = SplitMix64::new(args.seed ^ 0xC08_4444);
+    crate::wave4::stream_degenerate(&mut g, &mut rng4, thorough);
+    crate::wave4::stream_long_runs(&mut g, &mut rng4, thorough);
     for (k, v) in &g.cnt {
         st.add(k, *v);
     }
@@ -962,6 +973,11 @@ impl<'a> Gen<'a> {
     }
     pub fn lite(&self) -> bool {
         self.lite
+    }
+    /// like `emit`, with the header flag `ss`: the harness answers the case in a child process on a small stack
+    pub fn emit_ss(&mut self, stream: &'static str, p: &Prep, sched: &[(Item, u64)], kind: &'static str) {
+        self.ss_next = true;
+        self.emit(stream, p, sched, kind);
     }
     pub fn emit_count_pair(&mut self, k: &'static str) {
         self.bump(k);
